@@ -146,6 +146,10 @@ def _pair_case(draw, families=tuple(PAIR_FAMILIES), full_rank=False):
     # one argument real-valued with a real dtype, the other complex (a slip keyed on one argument's dtype is invisible
     # when both states always share a dtype; several independently seeded changes elsewhere were of this kind)
     case["mixed_dtype"] = (not real) and fam in ("generic", "pure_mixed", "pure_pure") and draw(st.integers(0, 3)) == 0
+    # one argument exactly diagonal in the computational basis ("classical"), the other generic: shortcuts for diagonal /
+    # commuting inputs that look at one argument only are invisible when both states are always of the same kind
+    # (seeded change C13-a1)
+    case["diag1"] = fam == "generic" and draw(st.integers(0, 3)) == 0
     return case
 
 
@@ -169,6 +173,10 @@ def _pair(case):
             sigma = rho.copy()
         elif fam == "generic":
             sigma = _density(s[1], d, r2, real, case["spec2"])
+            if case.get("diag1"):
+                pd_ = np.zeros(d)
+                pd_[gen.rng(s[2]).permutation(d)[:r1]] = np.full(r1, 1.0 / r1) if case["spec1"] == "flat" else gen.rand_probs(s[3], r1)
+                rho = np.diag(pd_).astype(rho.dtype)
         else:
             tau = _density(s[1], d, r2, real, case["spec2"])
             sigma = _herm((1 - EPS_NEAR) * rho + EPS_NEAR * tau)
